@@ -115,7 +115,7 @@ func TestMain(m *testing.M) {
 		"(base/default round trips are counted as trivial).")
 	R.Assume("envconfig's documented naming (PREFIX_GOFIELDNAME upper-cased, nested structs joined with _) is the meaning of 'values supplied through environment variables'")
 	R.Assume("cluster.id and cluster.private_key are legacy keys (identity moved to identity.json in 0.11.0, CHANGELOG) and are intentionally not persisted by the cluster section")
-	R.Assume("Manager 'source' (remote HTTP configuration) is out of scope: the check works offline")
+	R.Assume("Manager source (remote HTTP configuration) is exercised against an in-process HTTP server only: the check works offline")
 
 	if rp := os.Getenv("VERIF_REPLAY"); rp != "" {
 		var art struct {
